@@ -137,6 +137,40 @@ def replay(case) -> dict:
     return dict(events=ev)
 
 
+def replay_relation(case) -> dict:
+    """A batch average is the count-weighted mean of the averages of its tomograms' OWN loaders (same order, scale, box and
+    corner_safe), for rotated molecules on float tomograms - whichever way the sub-loaders are reached."""
+    import dask.array as da
+    from scipy.spatial.transform import Rotation
+    from acryo import BatchLoader, Molecules, SubtomogramLoader
+
+    rng = np.random.default_rng(case["seed"])
+    box = tuple(case["box"])
+    kw = dict(order=case["order"], scale=case["scale"], output_shape=box, corner_safe=case["cs"])
+    tomos, moles = [], []
+    for t, n in enumerate(case["counts"]):
+        tomo = rng.normal(size=(30, 32, 34)).astype(np.float32) + t
+        pos = rng.uniform(12, 18, size=(n, 3)) * case["scale"]
+        rot = Rotation.random(n, random_state=int(rng.integers(0, 2**31))) if case["rotated"] else Rotation.identity(n)
+        tomos.append(da.from_array(tomo, chunks=(11, 13, 34)) if case["dask"] else tomo)
+        moles.append(Molecules(pos, rot))
+    b = BatchLoader(**kw)
+    for tomo, mol in zip(tomos, moles):
+        b.add_tomogram(tomo, mol)
+    desc = dict(part="relation", box=list(box), cs=case["cs"], rotated=case["rotated"], order=case["order"], scale=case["scale"], dask=case["dask"])
+    fails = []
+    got = np.asarray(engine.api(b.average), dtype=np.float64)
+    N = sum(case["counts"])
+    want = sum(n * np.asarray(SubtomogramLoader(tomo, mol, **kw).average(), dtype=np.float64) for n, tomo, mol in zip(case["counts"], tomos, moles)) / N
+    if got.shape != want.shape or float(np.max(np.abs(got - want))) > 1e-4:
+        fails.append(dict(desc, clause="BatchAverageIsCountWeightedMean", maxerr=float(np.max(np.abs(got - want))) if got.shape == want.shape else None))
+    for how, subs in (("loaders[i]", [b.loaders[i] for i in range(len(tomos))]), ("iteration", list(b.loaders))):
+        w2 = sum(s.count() * np.asarray(s.average(), dtype=np.float64) for s in subs) / N
+        if float(np.max(np.abs(got - w2))) > 1e-4:
+            fails.append(dict(desc, clause="BatchAverageIsMeanOverItsSubLoaders", how=how, maxerr=float(np.max(np.abs(got - w2)))))
+    return dict(failures=fails)
+
+
 def run(rep: engine.Report, tier: str, seed: int):
     mc = rep.add_tlc(engine.tlc("MC_C09", "MC_C09", workers=1))
     cases = mc.emitted
@@ -168,6 +202,10 @@ def run(rep: engine.Report, tier: str, seed: int):
         rep.count(e["op"])
     rep.traces_validated = len(sel)
     memo.run_family(rep, ["batch_average_grow"])
+    rel = [dict(part="relation", box=list(bx), cs=cs, rotated=rt, order=o, scale=sc, dask=dk, counts=[2, 3], seed=seed * 101 + i)
+           for i, (bx, cs, rt, o, sc, dk) in enumerate((bx, cs, rt, o, sc, dk) for bx in ((9, 9, 9), (7, 9, 11)) for cs in (False, True) for rt in (False, True)
+                                                        for o in (1, 3) for sc in (1.0, 0.5) for dk in (False, True))]
+    engine.collect(rep, rel, engine.parallel_replay("harness.props.c09", "replay_relation", rel), key=lambda c: c)
     rep.exhaustive = len(sel) == len(cases)
     rep.rule = (
         "TLC enumerates molecule counts 1..6 x single/batch/mock x distinct/coinciding markers x 3 group-key patterns x "
@@ -180,6 +218,10 @@ def run(rep: engine.Report, tier: str, seed: int):
 
 def replay_file(path: str) -> int:
     v = json.loads(open(path).read())
+    if "case" in v and "event" not in v and v["case"].get("part") == "relation":
+        r = replay_relation(v["case"])
+        print(json.dumps(r, indent=1, default=str))
+        return 1 if r["failures"] else 0
     if "case" in v and "event" not in v:
         r = replay(v["case"])
         print(json.dumps(dict(planted_mismatch=r.get("planted_mismatch", "")), indent=1))
